@@ -132,9 +132,14 @@ class ColumnBackend(ArraySchemaBackend):
             else:
                 if getattr(schema, "drop_invalid_rows", False):
                     # replace the check_obj with the validated
-                    check_obj = validate_column(
+                    validated_check_obj = validate_column(
                         check_obj, column_name, return_check_obj=True
                     )
+                    if validated_check_obj is None:
+                        # errors that cannot be resolved by dropping rows
+                        # were collected and are raised below
+                        continue
+                    check_obj = validated_check_obj
 
                 validated_column = validate_column(
                     check_obj,
